@@ -1,15 +1,16 @@
 #!/bin/bash
-# usage: seed_demo.sh <Cxx> [pkgdir-for-test-files] — runs the agent's demonstration on the changed worktree and on the original (stash), prints tails
+# usage: seed_demo.sh <Cxx> [pkgdir-for-test-files] — runs the agent's demonstration on the changed worktree and on the original (patch reversed), prints tails
 export GOFLAGS=-mod=mod GOPROXY=off GOSUMDB=off GOTOOLCHAIN=local
 id=$1; pkg=${2:-}
 W=/tmp/wt-$id; S=/tmp/seed-$id/demo
 run() {
-  if [ -f $S/run.sh ]; then (cd $S && sh run.sh $W 2>&1 | tail -3)
+  if [ -f $S/run.sh ]; then (cd $S && sh run.sh $W 2>&1 | tail -4)
   elif [ -f $S/main.go ] && [ -f $S/go.mod ]; then (cd $S && go run . 2>&1 | tail -3)
+  elif [ -f $S/go.mod ]; then (cd $S && go test -count=1 ./... 2>&1 | tail -4)
   else
-    t=$(ls $S/*_test.go | head -1); cp $t $W/$pkg/; (cd $W && go test -race -vet=off -count=1 -run 'Test(Demo|C[0-9]+)' ./$pkg/ 2>&1 | tail -3); rm -f $W/$pkg/$(basename $t)
+    t=$(ls $S/*_test.go | head -1); cp $t $W/$pkg/; (cd $W && go test -vet=off -count=1 -run 'Test(Demo|C[0-9]+)' ./$pkg/ 2>&1 | tail -3); rm -f $W/$pkg/$(basename $t)
   fi
 }
 echo "== $id changed:"; run | cut -c1-200
-git -C $W stash -q; echo "== $id original:"; run | cut -c1-200; git -C $W stash pop -q
+git -C $W diff > /tmp/seed-$id/flip.diff; git -C $W apply -R /tmp/seed-$id/flip.diff; echo "== $id original:"; run | cut -c1-200; git -C $W apply /tmp/seed-$id/flip.diff; rm -f /tmp/seed-$id/flip.diff
 git -C $W status --short
